@@ -259,6 +259,11 @@ func (cip *CIP) DecodeFromBytes(data []byte, df gopacket.DecodeFeedback) error {
 		return ErrCIPDataTooSmall
 	}
 
+	// a reused layer must not keep what an earlier packet left in the optional fields
+	cip.ClassID, cip.InstanceID, cip.Status = 0, 0, 0
+	cip.AdditionalStatus = nil
+	cip.Data = nil
+
 	offset := 0
 	tmp := data[offset]
 	offset++
